@@ -6,7 +6,7 @@ import random
 
 import boot  # noqa: F401
 from harness.indep import bp7
-from harness.drivers.bp_world import BpWorld
+from harness.drivers.bp_world import BpWorld, dig
 
 NODE = 'dtn://node/'
 PROBE = BpWorld.PROBE_EID
@@ -338,6 +338,26 @@ def c19_executions(tier, seed):
             desc.append('recv %s rpt %s' % (dest, rpt))
         traces.append(run({'rx_routes': rx, 'tx_routes': txa, 'adaptors': True}, steps))
         metas.append({'adaptors': True, 'script': desc})
+    # subjects that arrive as fragments and are re-assembled and delivered here
+    for j in range(12 if tier == 'quick' else 120):
+        k += 1
+        total = rnd.choice([9, 24, 60])
+        pay = payload(total, k)
+        cuts = cuts_for(total, rnd.choice(['uniform', 'uneven']), rnd)
+        fl = rnd.choice([F['DLVREP'], F['DLVREP'] | F['RCVREP'], F['DLVREP'] | F['TIME'], F['RCVREP'], 0])
+        rpt = rnd.choice(['dtn://rpt/r', 'dtn://rpt/r', 'dtn:none'])
+        order = list(range(len(cuts)))
+        rnd.shuffle(order)
+        steps = []
+        for i in order:
+            (o, n) = cuts[i]
+            steps.append(('recv', mk(dest=PROBE, rpt=rpt, ts=(666000 + k, 0), flags=fl, pay=pay[o:o + n], frag=(o, total),
+                                     crc=rnd.choice([0, 1, 2])), {'note': 'fragment'}))
+            steps.append(('idle',))
+        orig = {'dtn://src/app|%d|0' % (666000 + k): {'dig': dig(pay), 'len': total}}
+        traces.append(run({'rx_routes': rx, 'tx_routes': tx}, steps, scenario={'orig': orig}))
+        metas.append({'fragments': [list(c) for c in cuts], 'order': order, 'report_to': rpt,
+                      'flags': sorted(n for (n, v) in F.items() if fl & v)})
     # directed: the CL service of the forwarding route is away, the one of the report-to route is present
     for (cl, dest, rpt) in (('udpcl', 'dtn://other/svc', 'dtn://rpt/r'), ('btpu', 'dtn://far/x', 'dtn://rpu/r')):
         for fl in (F['FWDREP'], F['DELREP'], F['FWDREP'] | F['DELREP'],
@@ -392,6 +412,12 @@ def c05_cases(tier, rnd):
             for crc in (0, 1, 2) if tier != 'quick' else (0, 1):
                 for mode in ('send', 'forward'):
                     cases.append((total, ename, ext_sets[ename], crc, mode, 'midway'))
+    # the whole bundle is only a few octets larger than the MTU (the width of its CRC fields and less)
+    for total in ((40, 300) if tier == 'quick' else (0, 5, 40, 300, 1000)):
+        for ename in ('none', 'hop'):
+            for crc in (1, 2):
+                for mode in ('send', 'forward'):
+                    cases.append((total, ename, ext_sets[ename], crc, mode, 'justover'))
     return cases
 
 
@@ -429,6 +455,8 @@ def c05_executions(tier, seed):
     for case in c05_cases(tier, rnd):
         if len(case) == 5:
             expanded.append(case + (None, 0))
+        elif case[5] == 'justover':
+            expanded.extend(case + (over,) for over in ((1, 2, 3, 4, 6, 9, 16) if tier != 'quick' else (1, 2, 4, 9)))
         else:
             expanded.extend(case + (back,) for back in (-1, 0, 1, 2))
     for (k, (total, ename, ext, crc, mode, forced, back)) in enumerate(expanded):
@@ -456,6 +484,8 @@ def c05_executions(tier, seed):
             if total > 3000:
                 # certainly below the first fragment's envelope (a tight MTU would mean thousands of fragments)
                 mtu = rnd.choice([10, env - delta - 60])
+        elif special == 'justover':
+            mtu = whole + delta - back
         elif special == 'midway':
             # env is the envelope at the largest offset: at env (and env - 1 beyond 256) the early fragments
             # carry one or two octets and a later one has no room; env + 1 is the smallest workable MTU
@@ -472,7 +502,7 @@ def c05_executions(tier, seed):
         rx = [('dtn://other/', 'forward')]
         tx = [('dtn://other/', 'dtn://other/', mtu), ('dtn://rpt/', 'dtn://rpt/', None)]
         if mode == 'send':
-            steps = [('send', octets, {'expect_error': True}), ('idle',)]
+            steps = [('send', octets, {'expect_error': True, 'unfinished_crc': bool(k % 2)}), ('idle',)]
         else:
             steps = [('recv', octets, {'note': special}), ('idle',)]
         traces.append(run({'rx_routes': rx, 'tx_routes': tx}, steps))
